@@ -7,7 +7,7 @@ import sys
 repo, d, cores, batch, nofile = sys.argv[1:6]
 sys.path.insert(0, repo)
 os.environ["GAFTOOLS_VERIF"] = "1"
-os.environ["GAFTOOLS_VERIF_REALIGN_BATCH"] = batch
+os.environ["GAFTOOLS_VERIF_REALIGN_BATCH"] = batch  # 1000 = the production value
 import logging  # noqa: E402
 
 logging.disable(logging.CRITICAL)
